@@ -2,6 +2,8 @@
 import vlib
 from tree_common import TreeSpec
 
+SPECS = {"tree": (TreeSpec("c03"), "harness", "runner")}
+
 PROP_FILES = ["C03"]
 
 
